@@ -25,7 +25,8 @@ REGRESSION = ["declare a=$((1 b", "until declare -r a=$((foo b; do cmd foo; done
 def fail_key(f):
     # keyed by where the panic happens (message + innermost mvdan/sh frames), not by the entry point used;
     # "post" marks panics while printing / walking / encoding / simplifying a returned tree
-    return "panic|%s%s" % ("post|" if f["entry"].startswith("post:") else "", f["detail"][:200])
+    tag = "post|" if f["entry"].startswith("post:") else "reused parser|" if f["entry"].startswith("reused:") else ""
+    return "panic|%s%s" % (tag, f["detail"][:200])
 
 
 def text_of(seq, frags):
@@ -179,7 +180,8 @@ def run(ck):
             if f["kind"] == "slow":
                 slow.append((src, f)); continue
             key = fail_key(f)
-            rec = {"vector": {"src": src, "entry": f["entry"], "lang": f["lang"], "opts": f["opts"]}, "impl": f}
+            rec = {"vector": {"src": src, "entry": f["entry"], "lang": f["lang"], "opts": f["opts"],
+                              "batch": j["srcs"][:f["src"] + 1] if f["entry"].startswith("reused:") else None}, "impl": f}
             if key not in seen or len(src) < len(seen[key]["vector"]["src"]):
                 seen[key] = rec
             ck.violation(key, seen[key])
@@ -227,7 +229,7 @@ def replay(ck, rec):
         if hangs:
             ck.violation(rec["key"], {"vector": v, "impl": hangs[0]})
         return
-    r = vlib.run_harness(h, "crash", [{"srcs": [v["src"]], "linear": rec["key"].startswith("slow|"), "post": True}])[0]
+    r = vlib.run_harness(h, "crash", [{"srcs": v.get("batch") or [v["src"]], "linear": rec["key"].startswith("slow|"), "post": True}])[0]
     for f in (r.get("fails") or []):
         key = fail_key(f) if f["kind"] == "panic" else "slow|Parse|%s" % json.dumps(v["src"])[:80]
         if key == rec["key"]:
